@@ -362,3 +362,34 @@ def check(ctx):
         sname = u(env_["S"])
     if ctx.need("R18-f", vs, "`sock.setblocking(False)` in _validate_socket", 1 if sname else 0, 1):
         dominates_all_exits(ctx, "R18-f", vs, f"{sname}.setblocking(False)", "every socket accepted by _validate_socket is made non-blocking")
+
+    # ---- R18-g a would-block waits for readiness in the direction of the operation that would block: a receive-type call waits until the
+    # socket is readable, a send-type call until it is writable (waiting the other way round deadlocks against a peer that is itself
+    # waiting, and steals the other direction's registration); and the two wait helpers register what their names say
+    RD_CALLS = {"recv", "recvmsg", "recvfrom", "recv_into", "accept"}
+    WR_CALLS = {"send", "sendmsg", "sendto", "sendall"}
+    n_w = 0
+    for f_ in ctx.repo.funcs_in(A):
+        for aw in [x for x in own_walk(f_.node) if isinstance(x, ast.Await) and isinstance(x.value, ast.Call) and isinstance(x.value.func, ast.Attribute)
+                   and x.value.func.attr in ("_wait_until_readable", "_wait_until_writable")]:
+            h_ = enclosing(aw, (ast.ExceptHandler,), stop=f_.node)
+            t_ = getattr(h_, "_parent", None) if isinstance(h_, ast.ExceptHandler) else None
+            if not isinstance(t_, ast.Try) or "BlockingIOError" not in handler_names(h_):
+                continue        # (reported by R18-c)
+            ops = {c_.func.attr for s_ in t_.body for c_ in ast.walk(s_) if isinstance(c_, ast.Call) and isinstance(c_.func, ast.Attribute)
+                   and c_.func.attr in RD_CALLS | WR_CALLS}
+            want = "_wait_until_readable" if ops and ops <= RD_CALLS else "_wait_until_writable" if ops and ops <= WR_CALLS else None
+            n_w += 1
+            ok = want == aw.value.func.attr
+            ctx.ob("R18-g", f_, "a would-block waits for readiness in the direction of the blocked operation", ok, node=stmt_of(aw), by=(f"{sorted(ops)} -> {want}",),
+                   detail="" if ok else f"{f_.qual}: `{'/'.join(sorted(ops)) or '?'}` would block but the handler awaits `{aw.value.func.attr}`")
+    ctx.floor("R18-g", "would-block handlers in the asyncio socket classes", n_w, 9)
+    for q_, reg, unreg, fut_ in (("_RawSocketMixin._wait_until_readable", "add_reader", "remove_reader", "_receive_future"),
+                                 ("_RawSocketMixin._wait_until_writable", "add_writer", "remove_writer", "_send_future")):
+        f_ = ctx.fn(q_, A)
+        calls = {c_.func.attr for c_ in ast.walk(f_.node) if isinstance(c_, ast.Call) and isinstance(c_.func, ast.Attribute)
+                 and c_.func.attr in ("add_reader", "add_writer", "remove_reader", "remove_writer")}
+        futs = {n_.attr for n_ in ast.walk(f_.node) if isinstance(n_, ast.Attribute) and n_.attr in ("_receive_future", "_send_future")}
+        ok = calls == {reg, unreg} and futs == {fut_}
+        ctx.ob("R18-g", f_, f"{q_.split('.')[-1]} registers, unregisters and records its own direction", ok, by=(reg, unreg, fut_),
+               detail="" if ok else f"{q_} uses {sorted(calls)} / {sorted(futs)}; expected {reg}, {unreg} and {fut_}")
